@@ -24,7 +24,7 @@ def run_case(case_id, tier="quick", seed=0, replay_dir=None, log=print):
     res = {"case": "C05/" + case_id, "obligations": [], "status": "ok", "notes": []}
     try:
         kind = case_id.split("/")[0]
-        (_sets if kind == "sets" else _chain)(case_id, res, seed, replay_dir, log)
+        {"sets": _sets, "chain": _chain, "terminal": _terminal}[kind](case_id, res, seed, replay_dir, log)
     except Exception as ex:  # noqa: BLE001
         res["status"] = "error"
         res["notes"].append(traceback.format_exc())
@@ -137,6 +137,88 @@ def _replay_sets(case_id, model, ra, rb, apps, name, replay_dir):
     return (False if bad else True), info
 
 
+def _terminal(case_id, res, seed, replay_dir, log):
+    """solve_adaptive_terminal_values(t0, t1, dt0, ...) against solve_adaptive_save_at(save_at=[t0, t1], same arguments):
+    same attempts, same reported time / step count / state"""
+    _, ctrl, clip, sz = case_id.split("/")
+    ko, ki = map(int, re.match(r"o(\d+)i(\d+)", sz).groups())
+    clip = clip == "clip"
+    T0, T1 = z3.Real("T0"), z3.Real("T1")
+    from jxs.zdomain import Z3Domain
+    dom = Z3Domain(linearize=True)
+    ra = C06.symbolic_run("terminal", ctrl, clip, 1, ko, ki, seed, T=[T0, T1], dom=dom)
+    rb = C06.symbolic_run("save_at", ctrl, clip, 1, ko, ki, seed, T=[T0, T1], dom=dom)
+    res["encoded"] = {"terminal": ra["encoded"], "save_at": rb["encoded"],
+                      "eqns_interpreted": ra["encoded"]["eqns_interpreted"] + rb["encoded"]["eqns_interpreted"],
+                      "primitives": rb["encoded"]["primitives"]}
+    s = z3.Solver(); s.set("timeout", 180000)
+    A, apps = C06.base_assumptions([ra, rb], [1, 1])
+    s.add(A)
+    r0 = str(s.check())
+    res["vacuity"] = {"assumptions_satisfiable": r0}
+    if r0 != "sat":
+        res["status"] = "inconclusive"; res["notes"].append(f"assumptions: {r0}"); return
+
+    def attempts(run):
+        st = [p for p in run["it"].probes if p["tag"] == "step"]
+        er = [p for p in run["it"].probes if p["tag"] == "err"]
+        return [(_G(a), _arg(a, 0), _arg(a, 1), _arg(e, 0)) for a, e in zip(st, er)]
+    aa, bb = attempts(ra), attempts(rb)
+
+    def pos(lst, i):
+        return z3.Sum([z3.If(lst[k][0], 1, 0) for k in range(i)]) if i else z3.IntVal(0)
+    viol = []
+    for i, (ga, ta, da, ea) in enumerate(aa):
+        for j, (gb, tb, db, eb) in enumerate(bb):
+            viol.append(z3.And(ga, gb, pos(aa, i) == pos(bb, j), z3.Or(ta != tb, da != db, ea != eb)))
+    na = z3.Sum([z3.If(x[0], 1, 0) for x in aa]); nb = z3.Sum([z3.If(x[0], 1, 0) for x in bb])
+
+    def sc_(v):
+        from jxs.interp import is_sym
+        v = v[()] if getattr(v, "shape", None) == () else v
+        return v if z3.is_expr(v) else z3.RealVal(str(Fraction(float(v))))
+    ta_, na_, xa_ = ra["outs"]; tb_, nb_, xb_ = rb["outs"]
+    obligations = [("k-th executed attempt of the terminal-value routine is the save_at routine's (t, dt, verdict)", z3.Or(viol)),
+                   ("both routines execute the same number of attempts", na != nb),
+                   ("terminal-value outputs (t, num_steps, state) = last entry of the save_at outputs",
+                    z3.Or(sc_(ta_) != sc_(tb_[-1]), sc_(na_) != sc_(nb_[-1]), sc_(xa_) != sc_(xb_[-1])))]
+    res["states"] = len(aa) + len(bb); res["transitions"] = len(aa) * len(bb)
+    _decide(res, case_id, s, obligations, log, replay=lambda m, name: _replay_terminal(case_id, m, ra, apps, name, replay_dir))
+
+
+def _terminal_compare(ctrl, clip, base, table):
+    la, tsa, nsa = C06.concrete_run(f"terminal/{ctrl}/{clip}/x", base, table)
+    lb, tsb, nsb = C06.concrete_run(f"save_at/{ctrl}/{clip}/x", base, table)
+    sa = [(e["t"], e["dt"]) for e in la if e["tag"] == "step"]
+    sb = [(e["t"], e["dt"]) for e in lb if e["tag"] == "step"]
+    bad = (len(sa) != len(sb)) or any(abs(x[0] - y[0]) > 1e-12 or abs(x[1] - y[1]) > 1e-12 for x, y in zip(sa, sb)) \
+        or float(np.ravel(nsa)[-1]) != float(np.ravel(nsb)[-1]) or abs(float(np.ravel(tsa)[-1]) - float(np.ravel(tsb)[-1])) > 1e-12
+    return bad, sa, sb
+
+
+def _replay_terminal(case_id, model, ra, apps, name, replay_dir):
+    _, ctrl, clip, sz = case_id.split("/")
+    f = C06._frac
+    T0, T1 = [f(model, t) for t in ra["T"]]
+    safety, fmin, fmax = [f(model, x) for x in ra["params"]]
+    base = {"dt0": f(model, ra["dt0"]), "eps": f(model, ra["eps"]), "safety": safety, "fmin": fmin, "fmax": fmax, "x0": 0.0,
+            "T": [T0, T1]}
+    table = {}
+    for a in apps:
+        t_, d_ = a.children()
+        table[(f(model, t_), f(model, d_))] = f(model, a)
+    info = {"params": base, "error_profile": [[k[0], k[1], v] for k, v in table.items()], "obligation_name": name, "case": case_id}
+    bad, sa, sb = _terminal_compare(ctrl, clip, base, table)
+    info["attempts_terminal"], info["attempts_save_at"] = sa[:10], sb[:10]
+    if bad and replay_dir:
+        os.makedirs(replay_dir, exist_ok=True)
+        path = os.path.join(replay_dir, f"C05__{case_id.replace('/', '__')}__{name[:40].replace(' ', '_')}.json")
+        with open(path, "w") as fh:
+            json.dump(info, fh, indent=1)
+        info["path"] = path
+    return (False if bad else True), info
+
+
 def _chain(case_id, res, seed, replay_dir, log):
     _, ctrl, clip, sz = case_id.split("/")
     ko, ki = map(int, re.match(r"o(\d+)i(\d+)", sz).groups())
@@ -223,6 +305,11 @@ def replay(path):
     case_id = data["case"]
     _, ctrl, clip, sz = case_id.split("/")
     table = {(a, b): v for a, b, v in data["error_profile"]}
+    if case_id.startswith("terminal"):
+        bad, sa, sb = _terminal_compare(ctrl, clip, data["params"], table)
+        print("attempts terminal:", sa, "\nattempts save_at:", sb)
+        print("VIOLATION reproduced" if bad else "no violation")
+        return bad
     if case_id.startswith("sets"):
         base = data["params"]
         la, tsa, nsa = C06.concrete_run(f"save_at/{ctrl}/{clip}/x", {**base, "T": data["TA"]}, table)
